@@ -15,7 +15,7 @@ import (
 // are EQUIVALENT for sure.
 //
 // LooseNF additionally merges everything debatable (empty vs absent query, userinfo, IPv6
-// textual forms, leading zeros in ports, trailing dot in hosts, raw non-ASCII vs its UTF-8
+// textual forms, leading zeros in ports, raw non-ASCII vs its UTF-8
 // percent-encoding, percent-encoded dots in dot-segments). Two URIs with different LooseNF are
 // DISTINCT for sure. In between: UNSPECIFIED.
 
@@ -177,7 +177,6 @@ func NF(u string, loose bool) (string, bool) {
 		if port == defaultPortOf(scheme) {
 			port = ""
 		}
-		host = strings.TrimSuffix(host, ".")
 		if strings.HasPrefix(host, "[") {
 			// merge all textual forms of IPv6 literals: parse and re-render
 			if ip := parseIP6(host[1 : len(host)-1]); ip != "" {
@@ -324,8 +323,10 @@ func squash(v string) string {
 		parts[i] = p
 	}
 	var keep []string
+	seen := map[string]bool{}
 	for _, p := range parts {
-		if p != "" {
+		if p != "" && !seen[p] {
+			seen[p] = true // a repeated list member carries no meaning of its own
 			keep = append(keep, p)
 		}
 	}
@@ -356,15 +357,8 @@ func SurelySame(a, b []string) bool {
 	if ea || eb {
 		return ea && eb
 	}
-	if len(a) != len(b) {
-		return false
-	}
-	for i := range a {
-		if a[i] != b[i] {
-			return false
-		}
-	}
-	return true
+	// several field lines are one combined list value (RFC 9110 §5.3)
+	return strings.Join(a, ", ") == strings.Join(b, ", ")
 }
 
 // Components returns the loose-normalised components of a URI (for classification only).
